@@ -100,6 +100,18 @@ def _finish(mod, ctx: F.Ctx, rep: F.Report, meta: dict, wall: float) -> int:
             known_seen.append(sig)
             print(f"KNOWN-FINDING: property={prop} {known[sig]} "
                   f"[sig={sig} cases={n}]")
+    wdir = os.environ.get("VERIF_WITNESS_DIR")
+    if wdir:
+        # tools/make_witnesses.sh: keep one replayable witness per listed finding
+        Path(wdir).mkdir(parents=True, exist_ok=True)
+        done = set()
+        for v in rep.violations:
+            if v["sig"] in known and v["sig"] not in done:
+                done.add(v["sig"])
+                k = sorted(known).index(v["sig"]) + 1
+                (Path(wdir) / f"{prop}-finding-{k}.json").write_text(json.dumps(
+                    {"property": prop, "sig": v["sig"], "what": known[v["sig"]],
+                     "case": F.jsonable(v["case"]), "detail": F.jsonable(v["detail"])}, indent=1) + "\n")
     unlisted = {s: n for s, n in rep.viol_sigs.items() if s not in known}
     n_new = sum(unlisted.values())
     first_path = None
